@@ -83,12 +83,17 @@ class Monitor(object):
         self.validated = 1
         if status != "ok" or Q is None:
             return
-        # arrival instants are the exact decimal partial sums of the stream's samples (batch size 1 in this family)
-        for key, ids in self.order.items():
+        # arrival instants are the exact decimal partial sums of the stream's samples (only where every arrival event
+        # creates exactly one accepted customer: no batching, baulking, rejection)
+        feats = " ".join(self.cfg.get("features", []))
+        one_per_event = not any(f in feats for f in ("batch", "baulk", "cap", "syscap"))
+        for key, ids in (self.order.items() if one_per_event else ()):
             s = self.arr.get(key, [])
             tot = Fraction(0)
             for j, cid in enumerate(ids):
                 if j >= len(s):
+                    break
+                if s[j] == float("inf"):
                     break
                 tot += Fs(s[j])
                 got = self.first_arrival[cid][2]
@@ -124,7 +129,9 @@ class Spec(object):
         return "decimal_record" in res.flags
 
     def families(self, tier):
-        return focused(tier)
+        from .. import universal
+        # every feature pair of the universal family that includes exact mode (types, exact sums, float twin)
+        return focused(tier) + [dict(c, grid=False, family="U-exact") for c in universal.family(tier) if "exact" in c["features"]]
 
     def post(self, cfg, res, mons):
         out = []
